@@ -145,7 +145,7 @@ def cls_of(reason):
 def run_job(job):
     t0 = time.time()
     targets = ['%s:%d' % (job['path'], ln) for ln in sorted(job['lines'].values())]
-    cmd = [XH, 'check', '--report_all', '--per_condition_timeout', str(job['timeout']),
+    cmd = [XH, 'check', '--report_all', '--unblock', 'open', '--per_condition_timeout', str(job['timeout']),
            '--extra_plugin', PLUGIN, '--'] + targets
     hard = job['timeout'] * len(targets) + 90
     try:
